@@ -7,6 +7,7 @@ from ..flow import AbsInt
 from ..rules import decide_states, pure_params, fmt_trace
 
 ID = "C19"
+ANCHORS = 'seqlet._recursive_seqlets,seqlet.recursive_seqlets,seqlet.tfmodisco_seqlets,seqlet._iterative_extract_seqlets'.split(",")
 MIN_INSTANCES = 12
 EXPLANATION = (
     "R-GUARD (cumulative-sum idiom): every read X_csum[i, e] in seqlet._recursive_seqlets is proved to satisfy 0 <= e <= l-1 "
